@@ -246,6 +246,52 @@ Theorem C15_bridge_nothing_without_C03_job :
 Proof. exact nothing_without_C03_job. Qed.
 Print Assumptions C15_bridge_nothing_without_C03_job.
 
+(* On any table that does not list the name yet, the job [sched_sync] adds for a slot of C15's list is
+   the image of C15's prepare job for that slot, for C15's members. *)
+Theorem C15_bridge_sched_sync_adds_C15_job :
+  forall p c ae i e t s,
+    params_match p c ae -> env_match p i e -> si_accts i <> None ->
+    S3.sync_active c ae (si_cur i) e (si_epoch i) = true ->
+    C3.tget t (C3.JSync s) = None ->
+    In s (window_slots true p (si_epoch i) (si_cur i) (si_notcur i)) ->
+    C3.tget (C3.sched_sync c ae (si_cur i) e (si_epoch i) (si_notcur i) t) (C3.JSync s) =
+    Some (sync_job_of c i (JPrepare, s, prepare_time p s)).
+Proof. exact sched_sync_tget_new. Qed.
+Print Assumptions C15_bridge_sched_sync_adds_C15_job.
+
+(* End to end, across the seam between the two properties (the call sites of
+   scheduleSyncCommitteeMessages are C03's, what the jobs do is C15's).  [i] is C15's reading of the
+   call that [start] makes for the current period: same epoch argument, same clock, notCurrentSlot,
+   the duties answer that the environment holds for the period.  After a (re)start in slot [cur] of
+   an active chain, for every later slot of the current sync committee period except its last:
+   the job table — whatever else [start] scheduled — holds under the name JSync s exactly the image of
+   C15's prepare job for s with C15's members; and when the jobs of that slot run, unless a step
+   fails for the whole batch, exactly one message per validator with a duty, an account and a non-zero
+   signature is handed to the submitter. *)
+Theorem C15_bridge_restart_then_message :
+  forall shadowed p c st ae i f r,
+    C3.altair_details shadowed c = (true, ae) -> params_match p c ae ->
+    let cur := C3.st_cur st in
+    let P := cur / spe p / epp p in
+    let this := C3.feosp c ae (C3.cur_epoch c cur / C3.c_period c) in
+    env_match p i (C3.st_env st) -> si_epoch i = this -> si_cur i = cur -> si_notcur i = true ->
+    si_accts i <> None ->
+    chain_ok p -> cur < two64 -> (P + 1) * epp p * spe p < two64 ->
+    S3.sync_active c ae cur (C3.st_env st) this = true ->
+    cur < f_slot f <= (P + 1) * epp p * spe p - 2 ->
+    f_root f = Some r -> f_sel_err f = false -> f_root_err f = false ->
+    C3.tget (C3.st_jobs (C3.start shadowed c st)) (C3.JSync (f_slot f)) =
+      Some (sync_job_of c i (JPrepare, f_slot f, prepare_time p (f_slot f)))
+    /\ let out := fire_scheduled p i f in
+       (forall s' r' v x,
+          In (s', r', v, x) (opt_list (o_submitted out)) <->
+          s' = f_slot f /\ r' = r /\ has_duty i v /\ holds_account i v /\ ~ In v (f_root_zero f)
+          /\ x = SgRoot v (f_slot f / spe p) r)
+       /\ NoDup (map msg_validator (opt_list (o_submitted out)))
+       /\ o_msg_job out = Some (message_time p (f_slot f)).
+Proof. exact restart_then_message. Qed.
+Print Assumptions C15_bridge_restart_then_message.
+
 (* ------------------------------------------------------------------------------------------- *)
 (* Non-vacuity. *)
 
@@ -285,3 +331,16 @@ Proof.
   split; [apply (config_of_params_match ex_p)|]. split; [apply env_of_input_match|].
   vm_compute. repeat split; reflexivity.
 Qed.
+
+(* the hypotheses of the end-to-end theorem are satisfiable: the controller of the example, restarted
+   in slot 41, holds after the start the job JSync 50 for the validators 3 and 7 *)
+Definition ex_st : C3.state := C3.set_env (C3.set_cur (C3.init_state true 2) 41) (env_of_input ex_p ex_i).
+
+Example C15_bridge_restart_example :
+  C3.altair_details false ex_c = (true, 2) /\
+  C3.feosp ex_c 2 (C3.cur_epoch ex_c 41 / C3.c_period ex_c) = si_epoch ex_i /\
+  S3.sync_active ex_c 2 41 (C3.st_env ex_st) 8 = true /\
+  option_map C3.j_pay (C3.tget (C3.st_jobs (C3.start false ex_c ex_st)) (C3.JSync 50)) = Some [(3, 0, 0); (7, 0, 0)] /\
+  C3.tget (C3.st_jobs (C3.start false ex_c ex_st)) (C3.JSync 50) =
+    Some (sync_job_of ex_c ex_i (JPrepare, 50, prepare_time ex_p 50)).
+Proof. vm_compute. repeat split; reflexivity. Qed.
